@@ -131,7 +131,7 @@ type attemptState struct {
 	returned   int32
 	handlerGID []int
 	got        []*gobinlog.Transaction
-	writtenAt  []int // master.Written() when handler call k started
+	writtenAt  []int // steps the master had begun to write when handler call k started
 	streamErr  error
 	streamDone chan struct{}
 	baseline   map[int]bool
@@ -299,7 +299,7 @@ func (ss *session) run(at attempt) *attemptState {
 		}
 		atomic.AddInt32(&st.calls, 1)
 		st.mu.Lock()
-		st.writtenAt = append(st.writtenAt, plan.Written())
+		st.writtenAt = append(st.writtenAt, plan.Started())
 		st.handlerGID = append(st.handlerGID, sched.Self())
 		st.mu.Unlock()
 		var err error
